@@ -14,6 +14,7 @@ import (
 	"strings"
 	"sync"
 	"testing"
+	"time"
 
 	"github.com/pion/interceptor"
 	"github.com/pion/rtp"
@@ -27,6 +28,7 @@ type vsrStep struct {
 	Ext string `json:"ext"`
 	Pad string `json:"pad"`
 	Exp string `json:"exp"`
+	Cop string `json:"cop"` // WriteDuring: the call made while the write is under way ("Bind" / "Unbind")
 }
 
 type vsrBehaviour struct {
@@ -38,6 +40,31 @@ type vsrBehaviour struct {
 type vsrSink struct {
 	mu   sync.Mutex
 	recv []any
+	// gate: when armed, the first delivery of the running write blocks (after it was recorded) until
+	// released -- the write is then provably inside its fan-out, holding whatever lock it holds
+	armed   bool
+	arrived chan struct{}
+	release chan struct{}
+}
+
+func (s *vsrSink) arm() {
+	s.mu.Lock()
+	s.armed, s.arrived, s.release = true, make(chan struct{}), make(chan struct{})
+	s.mu.Unlock()
+}
+
+// pass is called by a writer after it recorded a delivery.
+func (s *vsrSink) pass() {
+	s.mu.Lock()
+	if !s.armed {
+		s.mu.Unlock()
+		return
+	}
+	s.armed = false
+	arrived, release := s.arrived, s.release
+	s.mu.Unlock()
+	close(arrived)
+	<-release
 }
 
 func (s *vsrSink) take() []any {
@@ -64,6 +91,7 @@ func (w *vsrWriter) WriteRTP(h *rtp.Header, payload []byte) (int, error) {
 	w.sink.recv = append(w.sink.recv, vkM{"id": w.id, "via": "WriteRTP", "ssrc": int64(hc.SSRC), "pt": int(hc.PayloadType),
 		"rest": vsrRest(&hc, pc, 0)})
 	w.sink.mu.Unlock()
+	w.sink.pass()
 	return len(payload), nil
 }
 
@@ -197,9 +225,103 @@ func vsrBehaviourRun(t *testing.T, tr *vkTrace, bh vsrBehaviour) {
 		sort.Strings(ids)
 		return "[" + strings.Join(ids, "+") + "]"
 	}
+	noConc := vkM{"op": "none", "id": "", "res": "ok", "ssrc": int64(0), "pt": 0, "during": false}
 	for _, st := range bh.Steps {
 		at := boundSig()
 		switch st.Op {
+		case "WriteDuring":
+			// the overlapping realisation of "Write, then Bind/Unbind": the write is held at its first
+			// sender, the other call is started on its own goroutine (on a track that keeps its lock
+			// for the whole fan-out it has to wait), then the write is let go.  Whatever the timing, the
+			// line is judged by the same predicates; the waiting time below only decides how likely an
+			// implementation that does NOT wait is to show it.
+			id := fmt.Sprintf("b%d", st.ID)
+			var c *vsrCtx
+			if st.Cop == "Bind" {
+				c = &vsrCtx{id: id, ssrc: SSRC(r.Int31()), pt: PayloadType(96 + st.ID%2)} //nolint:gosec
+				c.w = &vsrWriter{id: id, sink: sink}
+				c.codecs = []RTPCodecParameters{{RTPCodecCapability: vp8, PayloadType: c.pt}}
+			} else {
+				c = ctxs[st.ID]
+			}
+			if c == nil || len(bound) == 0 {
+				t.Fatalf("behaviour %d: WriteDuring without a bound sender / context", bh.ID)
+			}
+			p := vsrPacket(r, st)
+			sink.take()
+			var before, after vkM
+			var werr, cerr error
+			var b []byte
+			parse := func() vkM {
+				q := &rtp.Packet{}
+				if err := q.Unmarshal(append([]byte{}, b...)); err != nil {
+					t.Fatalf("own parse: %v", err)
+				}
+				return vsrSnap(q, b)
+			}
+			if st.API == "WriteRTP" {
+				before = vsrSnap(p, nil)
+			} else {
+				var err error
+				if b, err = p.Marshal(); err != nil {
+					t.Fatalf("marshal: %v", err)
+				}
+				before = parse()
+			}
+			sink.arm()
+			wdone, cdone := make(chan struct{}), make(chan struct{})
+			go func() {
+				defer close(wdone)
+				if st.API == "WriteRTP" {
+					werr = track.WriteRTP(p)
+				} else {
+					_, werr = track.Write(b)
+				}
+			}()
+			select {
+			case <-sink.arrived:
+			case <-time.After(10 * time.Second):
+				t.Fatalf("behaviour %d: the write never reached a sender", bh.ID)
+			}
+			go func() {
+				defer close(cdone)
+				if st.Cop == "Bind" {
+					_, cerr = track.Bind(c)
+				} else {
+					cerr = track.Unbind(c)
+				}
+			}()
+			during := false
+			select {
+			case <-cdone:
+				during = true // the concurrent call did not wait for the write
+			case <-time.After(4 * time.Millisecond):
+			}
+			close(sink.release)
+			<-wdone
+			<-cdone
+			if st.API == "WriteRTP" {
+				after = vsrSnap(p, nil)
+			} else {
+				after = parse()
+			}
+			cres := "ok"
+			if cerr != nil {
+				cres = "err"
+			} else if st.Cop == "Bind" {
+				ctxs[st.ID], bound[id] = c, true
+			} else {
+				delete(bound, id)
+				delete(ctxs, st.ID)
+			}
+			res := "ok"
+			if werr != nil {
+				res = "err"
+			}
+			tr.Emit(vkM{"ev": "write", "t": bh.ID,
+				"sig": fmt.Sprintf("WriteDuring(%s,%s(%s))@%s", st.API, st.Cop, id, at),
+				"api": st.API, "in": before, "after": after, "recv": sink.take(), "res": res,
+				"conc": vkM{"op": st.Cop, "id": id, "res": cres, "ssrc": int64(c.ssrc), "pt": int(c.pt), "during": during}})
 		case "Bind", "BindBad":
 			id := fmt.Sprintf("b%d", st.ID)
 			// a fresh context per bind: SSRC from the seed, payload types shared by senders 1 and 3
@@ -270,7 +392,7 @@ func vsrBehaviourRun(t *testing.T, tr *vkTrace, bh vsrBehaviour) {
 			}
 			tr.Emit(vkM{"ev": "write", "t": bh.ID,
 				"sig": fmt.Sprintf("Write(%s,cc%d,%s,%s)@%s", st.API, st.CC, st.Ext, st.Pad, at),
-				"api": st.API, "in": before, "after": after, "recv": sink.take(), "res": res})
+				"api": st.API, "in": before, "after": after, "recv": sink.take(), "res": res, "conc": noConc})
 		default:
 			t.Fatalf("unknown op %q", st.Op)
 		}
